@@ -99,6 +99,7 @@ type conn struct {
 	cseq       int
 	frames     int
 	sid        string
+	played     bool
 }
 
 type world struct {
@@ -498,6 +499,9 @@ func (w *world) rtspEvent(c *conn, m int64, path string, cred Val) Val {
 	if m == 5 {
 		budget := 3
 		if code == 200 {
+			c.played = true
+		}
+		if c.played { // a session that has been playing may still be sending, whatever it answered now
 			budget = 60
 		}
 		mediaSeen = w.mediaArrives(c, budget)
@@ -793,7 +797,10 @@ func runCase(c Val) Val {
 			mediaSeen := false
 			if m == 5 {
 				budget := 3
-				if code == 200 && datas[cn] != nil {
+				if code == 200 {
+					cn.played = true
+				}
+				if cn.played && datas[cn] != nil {
 					budget = 40
 				}
 				mediaSeen = w.arrivesOn(datas[cn], budget)
